@@ -444,6 +444,24 @@ class Unit:
                 self.rewrites = [r for r in self.rewrites if r[0] != arg]
             elif cmd in ('unit', 'serves', 'note'):
                 pass
+            elif cmd == 'gen-opflags':
+                # stand-in for OpFlags<Felt>: one uninterpreted flag value per accessor found in
+                # /repo's op_flags/mod.rs *now* (accessor contracts are assumed: A-flags)
+                rf = self.rf('air/src/constraints/stack/op_flags/mod.rs')
+                fns = re.findall(r'pub fn (\w+)\(&self(?:, (\w+): usize)?\) -> E \{', rf.src)
+                lines = ['#[verifier::external_body]', 'pub struct OpFlags { _p: u8 }', 'impl OpFlags {']
+                for name, idx in fns:
+                    if idx:
+                        lines.append('    pub uninterp spec fn sp_%s(self, i: int) -> Felt;' % name)
+                        lines.append('    #[verifier::external_body]')
+                        lines.append('    pub fn %s(&self, %s: usize) -> (r: Felt) requires %s < 16, ensures r == self.sp_%s(%s as int) { unimplemented!() }' % (name, idx, idx, name, idx))
+                    else:
+                        lines.append('    pub uninterp spec fn sp_%s(self) -> Felt;' % name)
+                        lines.append('    #[verifier::external_body]')
+                        lines.append('    pub fn %s(&self) -> (r: Felt) ensures r == self.sp_%s() { unimplemented!() }' % (name, name))
+                lines.append('}')
+                self.out.add('\n'.join(lines), {'k': 'lit'})
+                self.trusted.append('A-flags: OpFlags accessor values are uninterpreted here (%d accessors found); OpFlags::new is the subject of unit op_flags' % len(fns))
             elif cmd == 'body-prelude':
                 self.body_prelude.append(arg)
             elif cmd == 'body-prelude-off':
